@@ -84,6 +84,22 @@ def check(repo: Repo, rep: Report) -> None:
                "selector raises, the error fan-out does not reach that window (it never terminates and keeps its reference on the sources)")
     rep.rule("T1-rollover", "window_with_time: close iff next_span <= next_shift, open iff next_shift <= next_span (both when equal), evaluated for the three orderings", floor=4)
     rule_rollover(repo, rep)
+    # window_toggle: a source element lives for a zero-length duration
+    rep.rule("Z1-zero-length-element", "window_toggle gives each source element a duration that ends inside its own subscribe (empty() on the immediate scheduler)", floor=2)
+    wt = repo.fn("reactivex/operators/_window.py", "window_toggle_")
+    gj = [n for n in wt.all_nodes() if isinstance(n, ast.Call) and call_name(n) == "group_join"]
+    dur = gj[0].args[2] if len(gj) == 1 and len(gj[0].args) >= 3 else None
+    ok = isinstance(dur, ast.Lambda) and isinstance(dur.body, ast.Call) and call_name(dur.body) == "empty" and not dur.body.args and not dur.body.keywords
+    rep.ob("Z1-zero-length-element", wt, "group_join(source, closing_mapper, lambda _: empty())", ok,
+           "window_toggle does not give source elements an empty() duration: an element stays joinable after its own delivery and is "
+           "replayed into windows that open later")
+    em = repo.fn("reactivex/observable/empty.py", "empty_")
+    scheds = sorted({n.id for n in em.all_nodes() if isinstance(n, ast.Name) and n.id.endswith("Scheduler")}
+                    | {n.attr for n in em.all_nodes() if isinstance(n, ast.Attribute) and n.attr.endswith("Scheduler")})
+    rep.ob("Z1-zero-length-element", em, f"empty_ falls back to {scheds or 'no scheduler'}", set(scheds) <= {"ImmediateScheduler"},
+           f"empty() without a scheduler completes through {scheds}: on a trampoline / timer the completion is deferred until after the "
+           f"running action, so window_toggle's zero-length element durations overlap windows opened later in the same run and "
+           f"elements are replayed into windows that were not open when they arrived")
     for (rel, name), (wop, wargs) in BUFFERS.items():
         f = repo.fn(rel, name)
         calls = [n for n in f.all_nodes() if isinstance(n, ast.Call) and call_name(n) == wop]
